@@ -27,7 +27,7 @@ import (
 func corrShift(o corrOpts) *res.Summary {
 	sum := &res.Summary{Suite: "shift", Tier: o.tier, Seed: o.seed}
 	r := rng.New(o.seed ^ 0x5F17)
-	n, trials := 12, 160
+	n, trials := 12, 240
 	if o.tier == "thorough" {
 		n, trials = 60, 3000
 	}
@@ -127,8 +127,24 @@ func corrShift(o corrOpts) *res.Summary {
 		sum.Notes = append(sum.Notes, "no @ignore scope in the generated programs")
 		return sum
 	}
+	// half of the trials take the LAST scope of a file (nothing of the package starts behind it on the same page: the file
+	// is followed by a page of padding), half any scope
+	lastOf := map[string]scope{}
+	var files []string
+	for _, sc := range scopes {
+		if l, ok := lastOf[sc.file]; !ok || sc.start > l.start {
+			if !ok {
+				files = append(files, sc.file)
+			}
+			lastOf[sc.file] = sc
+		}
+	}
+	sort.Strings(files)
 	for t := 0; t < trials; t++ {
 		sc := scopes[r.Intn(len(scopes))]
+		if t%2 == 0 {
+			sc = lastOf[files[r.Intn(len(files))]]
+		}
 		// the boundary right behind the first byte of the scope (everything else of the scope lies beyond it), or anywhere inside
 		off := sc.start + 1
 		if r.Chance(1, 3) {
